@@ -50,6 +50,18 @@ CLAIMS['C22'] = dict(engine='rtc (E3)', category='exploration',
          'modulo the reciprocal lattice, reduced weights are positive, sum to one and reproduce the full-mesh average of invariant periodic functions to 1e-10.',
     note='Window of 9^d reciprocal vectors, six orbit shells of lattice vectors as test functions.')
 
+CLAIMS['C23'] = dict(engine='symx (E4) + rtc (E3)', category='proof',
+    technique='contract-based: route-consistency identities as postconditions over ghost predicates crystal_ok/op_ok, discharged by executing the real module source on symbolic lattices/positions/operations (sympy normal forms, ideal membership), dimension 2 and 3',
+    text='For all lattices, integer lattice vectors, in-cell positions and operations satisfying op_ok, in 2D and 3D: the coordinate conversions round-trip, '
+         'g_pos/g_vect/g_cart/g_direc/g_tensor, PairState.g and ClusterSite.g give the same geometric result, products/inverses/lattice shifts of operations act '
+         'as composition/inverse/shift, fromcrys and fromcrys_latt are mutually inverse. cart2pos and floating-point robustness are checked numerically on the catalogue (B).',
+    note='Floats as reals; op_ok/crystal_ok are hypotheses (established by gengroup/__init__, run-time checked in C18); the real source is executed with one stated rewrite (.astype(int)) and a numpy shim for floor/round/inv/det.')
+CLAIMS['C36'] = dict(engine='symx (E4) + rtc (E3) + structural AST contracts', category='other',
+    technique='contract-based: structural contracts on the extracted __eq__/__ne__/__hash__ (exact-field conjunction, negation, hash over compared fields) for all instances; PairState arithmetic laws by symbolic execution of the real source; run-time laws on instance pools',
+    text='PairState, ClusterSite and Cluster satisfy the equality/hash laws for all instances (structural proof) and the documented arithmetic identities incl. commutation with symmetry (symbolic, all inputs). '
+         'GroupOp and vacancyThermoKinetics use tolerance equality by design: the equivalence-relation / hash clauses are genuinely violated there and are recorded as known findings with witnesses; any other violation is reported.',
+    note='Level is "other" because the property does not hold for two types (known findings); structural patterns that are not recognised are reported undecided, never as violations.')
+
 NOT_APPLICABLE = {
     'C01': 'no contract within reach: the postcondition "equals the infinite-dilution limit of the exact Markov chain, to integration accuracy" needs an independent infinite-lattice solver as oracle (differential testing, a different technique) and no SMT/CAS obligation expresses a quadrature error; the discrete mechanisms it rests on are claimed in C24-C26, its invariances in C04, its sum rules in C06',
     'C05': 'a 2-safety statement about the Loewner order of two outputs (Rayleigh monotonicity): a variational theorem of detailed balance, not an invariant of any loop or a postcondition of one call; its only executable form is a numeric comparison of two runs (testing, not contract checking)',
